@@ -9,10 +9,20 @@ Schemas are built from a JSON spec (so that every replay dict is self-contained)
 
 Values are applied by assignment (items are built as configurations and appended).  The oracle is a reference
 rendering written from the property statement: every sensitive leaf -> None if the value is falsy, a one-character
-mask repeated to len(str(value)), any other mask verbatim; everything else exactly what to_tree() (no mask) renders
-at that position; mask None -> to_tree().  It is compared position by position (all depths, list items included)
-with to_tree(sensitive_mask=m) and with dumps(fmt, sensitive_mask=m) decoded by the same format; additionally the
-output (tree leaves and raw document bytes) is scanned for the distinctive plain values of the sensitive fields.
+mask repeated to len(str(value)), any other mask verbatim; everything else exactly what the same output kind renders
+at that position without a mask; mask None -> identical to the rendering without the argument.  It is compared
+position by position (all depths, list items included) with to_tree(sensitive_mask=m) and with
+dumps(fmt, sensitive_mask=m) decoded by the same format (SecureField ciphertexts are decrypted before comparing:
+random IV); additionally the output (tree leaves, and the raw document bytes) is scanned for the distinctive plain
+values of the non-empty sensitive fields.
+
+Classification of a deviation at a sensitive position:
+  * the plain value is visible / the position is rendered as without mask, value non-empty -> C10.no-sensitive-value-
+    in-output, witness_key = "in-listS" / "in-listT" (innermost configuration list on the path) or "no-list";
+  * anything else that is not the mask form -> C10.replaced-by-mask, witness_key where:kind:mask-class:set|empty;
+  * an EMPTY (falsy) sensitive value rendered as without mask instead of None is not flagged: the property speaks
+    about non-empty values only and nothing is revealed.
+Non-sensitive positions -> C10.non-sensitive-unaltered; mask None -> C10.no-mask-identity / C10.document-is-masked-tree.
 """
 import base64
 import copy
@@ -311,65 +321,88 @@ def scan_bytes(content, ndl):
     return hits
 
 
-def render(cfg, mask, out):
-    """-> (observed tree, raw document or None)"""
+def render(cfg, mask, out, use_default=False):
+    """-> (observed tree, raw document or None); use_default: do not pass sensitive_mask at all"""
     from cincoconfig.core import ConfigFormat
     if out == "tree":
-        return cfg.to_tree(sensitive_mask=mask), None
-    content = cfg.dumps(out, sensitive_mask=mask)
+        return (cfg.to_tree() if use_default else cfg.to_tree(sensitive_mask=mask)), None
+    content = cfg.dumps(out) if use_default else cfg.dumps(out, sensitive_mask=mask)
     return ConfigFormat.get(out).loads(cfg, content), content
 
 
-def evaluate(block, mask, out):
-    """run one case; -> list of findings {ob, wkey, what, path}"""
-    from cincoconfig.core import ConfigFormat
-    cfg = build(block)
-    base = cfg.to_tree()
-    sens_paths = {}
-    exp = expected_tree(block, cfg, base, mask, (), sens_paths, ())
-    obs, content = render(cfg, mask, out)
-    if out != "tree":
-        fmt = ConfigFormat.get(out)
-        exp = fmt.loads(cfg, fmt.dumps(cfg, exp))
-    exp_c, obs_c = canon(exp, cfg), canon(obs, cfg)
-    findings = []
-    leaked = set()
-    if mask is not None:
-        ndl = needles(sens_paths)
-        hits = scan_tree(obs_c, ndl)
-        if content is not None:
-            hits += scan_bytes(content, ndl)
-        for op, n, fp in hits:
-            info = sens_paths[fp]
-            leaked.add(fp)
-            findings.append({"ob": OB_LEAK, "wkey": where_class(info["where"]), "path": list(fp),
-                             "what": "sensitive %s field %s (value %r) shows up at %s of %s output under mask %r"
-                                     % (info["kind"], _fmt(fp), n, _fmt(op), out, mask)})
-    for p, e, o in diff(exp_c, obs_c):
-        sp = _sens_prefix(p, sens_paths)
-        if mask is None:
-            findings.append({"ob": OB_NONE if out == "tree" else OB_DOC, "wkey": "mask-none:" + out, "path": list(p),
-                             "what": "mask None: %s differs from to_tree(): expected %r observed %r" % (_fmt(p), e, o)})
-        elif sp is not None:
-            info = sens_paths[sp]
-            if sp in leaked:
-                continue
-            if strict_eq(canon(info["base"], cfg), _get(obs_c, sp)) and info["value"]:
-                findings.append({"ob": OB_LEAK, "wkey": where_class(info["where"]), "path": list(sp),
-                                 "what": "sensitive %s field %s rendered unmasked under mask %r in %s output"
-                                         % (info["kind"], _fmt(sp), mask, out)})
+class Ctx:
+    """one schema + configuration (built once from the spec), evaluated under several masks / output kinds"""
+
+    def __init__(self, block):
+        self.block = block
+        self.cfg = build(block)
+        self.base = {"tree": self.cfg.to_tree()}
+
+    def base_for(self, out):
+        """the unmasked rendering in output kind `out` (decoded document), SecureField ciphertexts decrypted"""
+        if out not in self.base:
+            self.base[out] = render(self.cfg, None, out, use_default=True)[0]
+        if ("c", out) not in self.base:
+            self.base[("c", out)] = canon(self.base[out], self.cfg)
+        return self.base[("c", out)]
+
+    def run(self, mask, out):
+        """run one case; -> list of findings {ob, wkey, what, path}"""
+        block, cfg = self.block, self.cfg
+        sens_paths = {}
+        exp_c = expected_tree(block, cfg, self.base_for(out), mask, (), sens_paths, ())
+        obs, content = render(cfg, mask, out)
+        obs_c = canon(obs, cfg)
+        findings = []
+        leaked = set()
+        if mask is not None:
+            ndl = needles(sens_paths)
+            hits = scan_tree(obs_c, ndl)
+            if not hits and content is not None:
+                hits = scan_bytes(content, ndl)
+            for op, n, fp in hits:
+                fp = _sens_prefix(op, sens_paths) or fp     # attribute a hit to the field it sits at, if any
+                info = sens_paths[fp]
+                leaked.add(fp)
+                findings.append({"ob": OB_LEAK, "wkey": where_class(info["where"]), "path": list(fp),
+                                 "what": "sensitive %s field %s (value %r) shows up at %s of %s output under mask %r"
+                                         % (info["kind"], _fmt(fp), n, _fmt(op), out, mask)})
+        for p, e, o in diff(exp_c, obs_c):
+            sp = _sens_prefix(p, sens_paths)
+            if mask is None:
+                findings.append({"ob": OB_NONE if out == "tree" else OB_DOC, "wkey": "mask-none:" + out,
+                                 "path": list(p),
+                                 "what": "mask None: %s of %s output differs from the rendering without mask: "
+                                         "expected %r observed %r" % (_fmt(p), out, e, o)})
+            elif sp is not None:
+                info = sens_paths[sp]
+                if sp in leaked:
+                    continue
+                unmasked = strict_eq(info["base"], _get(obs_c, sp))
+                if unmasked and not info["value"]:
+                    # the property speaks about non-empty values only: an empty sensitive value rendered as it is
+                    # without a mask (instead of None) shows nothing
+                    continue
+                if unmasked:
+                    findings.append({"ob": OB_LEAK, "wkey": where_class(info["where"]), "path": list(sp),
+                                     "what": "sensitive %s field %s rendered unmasked under mask %r in %s output"
+                                             % (info["kind"], _fmt(sp), mask, out)})
+                else:
+                    findings.append({"ob": OB_MASK,
+                                     "wkey": "%s:%s:%s:%s" % (where_class(info["where"]), info["kind"],
+                                                              _mask_class(mask), "set" if info["value"] else "empty"),
+                                     "path": list(sp),
+                                     "what": "sensitive %s field %s (value %r) under mask %r in %s output: expected "
+                                             "%r observed %r" % (info["kind"], _fmt(sp), info["value"], mask, out, e, o)})
             else:
-                findings.append({"ob": OB_MASK,
-                                 "wkey": "%s:%s:%s:%s" % (where_class(info["where"]), info["kind"], _mask_class(mask),
-                                                          "set" if info["value"] else "empty"),
-                                 "path": list(sp),
-                                 "what": "sensitive %s field %s (value %r) under mask %r in %s output: expected %r "
-                                         "observed %r" % (info["kind"], _fmt(sp), info["value"], mask, out, e, o)})
-        else:
-            findings.append({"ob": OB_NONSENS, "wkey": "%s:%s" % (_kind_at(block, p), out), "path": list(p),
-                             "what": "non-sensitive position %s under mask %r in %s output: expected %r (as without "
-                                     "mask) observed %r" % (_fmt(p), mask, out, e, o)})
-    return findings
+                findings.append({"ob": OB_NONSENS, "wkey": "%s:%s" % (_kind_at(block, p), out), "path": list(p),
+                                 "what": "non-sensitive position %s under mask %r in %s output: expected %r (as "
+                                         "without mask) observed %r" % (_fmt(p), mask, out, e, o)})
+        return findings
+
+
+def evaluate(block, mask, out):
+    return Ctx(block).run(mask, out)
 
 
 def _mask_class(mask):
@@ -430,11 +463,22 @@ def leaf_block(mode, kinds, tag=""):
             if mode == "mixed":
                 m = ("truthy", "falsy", "unset")[(i + (1 if sens else 0)) % 3]
             if m == "truthy":
-                f["v"] = copy.deepcopy(tv_s if sens else tv_n)
+                f["v"] = _tagged(copy.deepcopy(tv_s if sens else tv_n), tag)
             elif m == "falsy" and fv != _NOFALSY:
                 f["v"] = copy.deepcopy(fv)
             out.append(f)
     return out
+
+
+def _tagged(v, tag):
+    """make the values of the per-level small blocks distinct from each other and from the innermost block"""
+    if tag == "":
+        return v
+    if isinstance(v, str):
+        return "%s-L%s" % (v, tag)
+    if isinstance(v, int) and not isinstance(v, bool):
+        return v + 100 * (int(tag) + 1)
+    return v
 
 
 SMALL = ["String", "Int", "SecureDefault"]
@@ -521,51 +565,70 @@ def _report(rec, block, mask, out, findings):
         rec.violation(obligation=fd["ob"], what=fd["what"], replay=case, witness_key=fd["wkey"])
 
 
+def _plan(tier):
+    """-> [(shape, mode, kinds, [(mask, out), ...])] in a fixed order"""
+    outs = ["tree"] + FORMATS
+    modes = ("truthy", "falsy", "unset", "mixed")
+    plan = []
+    n = 0
+    for shape in all_shapes(3):
+        d = len(shape)
+        if tier != "quick" or d <= 1:
+            # full cross: every mask x every output kind
+            for mode in modes:
+                plan.append((shape, mode, LEAF_KINDS, [(m, o) for m in MASKS for o in outs]))
+        elif d == 2:
+            # every mask on the tree output + one rotating document format per (shape, mode, mask)
+            for mode in modes:
+                runs = []
+                for m in MASKS:
+                    runs.append((m, "tree"))
+                    runs.append((m, FORMATS[n % len(FORMATS)]))
+                    n += 1
+                plan.append((shape, mode, LEAF_KINDS, runs))
+        else:
+            for mode in ("truthy", "mixed"):
+                runs = []
+                for m in ("*", "XX"):
+                    runs.append((m, "tree"))
+                    runs.append((m, FORMATS[n % len(FORMATS)]))
+                    n += 1
+                plan.append((shape, mode, QUICK_DEEP_KINDS, runs))
+    return plan
+
+
+QUICK_DEEP_KINDS = ["String", "Int", "Float", "Bool", "Bytes", "List", "ListInt", "Dict", "DictProxy", "Secure",
+                    "SecureDefault", "Port", "Challenge", "Any"]
+
+
 def rac(tier: str, seed: int) -> dict:
-    quick = tier == "quick"
     rec = Recorder(
         PID,
         rule="one case = (schema shape, value mode, mask, output kind); shapes = every path of container kinds "
              "{sub-config, make_type config, ListField(Schema), ListField(config type)} from the root down, a block "
              "with one sensitive and one non-sensitive field of each of the %d built-in field kinds at the innermost "
              "level and a small block at every level above, two items per list; value modes truthy/falsy/unset/mixed;"
-             " a case is non-trivial when the schema has at least one sensitive field (all have)" % len(LEAF_KINDS),
-        bound="nesting depth <= 3 (quick: depth <= 2 exhaustive = 21 shapes x 4 modes x 5 masks x 6 outputs, depth 3 = "
-              "64 shapes x 2 modes x masks {'*','XX'} x {tree + 1 rotating format}); masks None,'','*','XX',"
-              "'REDACTED'; outputs to_tree + dumps in json/yaml/xml/bson/pickle",
+             " every case has sensitive fields, so every case counts as non-trivial" % len(LEAF_KINDS),
+        bound="nesting depth <= 3, 85 shapes; masks None,'','*','XX','REDACTED'; outputs to_tree + dumps in "
+              "json/yaml/xml/bson/pickle decoded back (+ raw bytes scan). quick: depth <= 1 full cross (5 shapes x 4 "
+              "modes x 5 masks x 6 outputs), depth 2 (16 shapes x 4 modes x 5 masks x {tree, 1 rotating format}), "
+              "depth 3 (64 shapes x 2 modes x masks {'*','XX'} x {tree, 1 rotating format}, %d kinds); thorough: "
+              "full cross at every depth until the budget is used" % len(QUICK_DEEP_KINDS),
         tier=tier, seed=seed)
-    outs = ["tree"] + FORMATS
     with sandbox():
         n = 0
-        # part 1: exhaustive over depth <= 2
-        for shape in all_shapes(2):
-            for mode in ("truthy", "falsy", "unset", "mixed"):
-                block = shape_spec(shape, mode, LEAF_KINDS)
-                for mask in MASKS:
-                    for out in outs:
-                        findings = evaluate(block, mask, out)
-                        rec.case(key=(shape, mode, mask, out), nontrivial=True,
-                                 sample={"shape": list(shape) or ["root"], "mode": mode, "mask": mask, "out": out,
-                                         "fields": len(block)} if n % 997 == 0 else None)
-                        n += 1
-                        _report(rec, block, mask, out, findings)
-        # part 2: depth 3
-        deep = [s for s in all_shapes(3) if len(s) == 3]
-        if quick:
-            plan = [(s, m, k, o) for s in deep for m in ("truthy", "mixed") for k in ("*", "XX") for o in ("tree", None)]
-        else:
-            plan = [(s, m, k, o) for s in deep for m in ("truthy", "falsy", "unset", "mixed") for k in MASKS
-                    for o in outs]
-        for i, (shape, mode, mask, out) in enumerate(plan):
-            if not quick and rec.out_of_time():
+        for shape, mode, kinds, runs in _plan(tier):
+            if tier != "quick" and rec.out_of_time():
                 break
-            if out is None:
-                out = FORMATS[i % len(FORMATS)]
-            block = shape_spec(shape, mode, LEAF_KINDS if not quick else LEAF_KINDS[: 12] + ["Secure", "SecureDefault"])
-            findings = evaluate(block, mask, out)
-            rec.case(key=(shape, mode, mask, out), nontrivial=True,
-                     sample={"shape": list(shape), "mode": mode, "mask": mask, "out": out} if i % 499 == 0 else None)
-            _report(rec, block, mask, out, findings)
+            block = shape_spec(shape, mode, kinds)
+            ctx = Ctx(block)
+            for mask, out in runs:
+                findings = ctx.run(mask, out)
+                rec.case(key=(shape, mode, mask, out), nontrivial=True,
+                         sample={"shape": list(shape) or ["root"], "mode": mode, "mask": mask, "out": out,
+                                 "leaf_kinds": len(kinds)} if n % 251 == 0 else None)
+                n += 1
+                _report(rec, block, mask, out, findings)
     return rec.result(exhaustive=False)
 
 
